@@ -222,4 +222,41 @@ theorem bayes_estimate (X : Matrix m p K) (w z : m → K) (c x0 mu : p → K) (h
   ring
 
 end Bayes
+/-! ### the collocated form of the algebraic calculator -/
+section Collocated
+open Matrix
+variable {K : Type*} [Field K] {m q : Type*} [Fintype m] [Fintype q] [DecidableEq m] [DecidableEq q]
+
+/-- **collocated form of the calculator (known mean)**: the datum of the collocated variables at the target is never
+added to the data; with `D = Σ₀₀ᵖᵖ − Σ₀ᵖᵀ Σ⁻¹ Σ₀ᵖ` (Schur complement of the augmented covariance) the calculator takes
+`λ₀ = D⁻¹ (Σ₀₀ᵖ − Σ₀ᵖᵀ Σ⁻¹ Σ₀)` for the collocated values and `λ = Σ⁻¹ (Σ₀ − Σ₀ᵖ λ₀)` for the data.  These are the
+weights of simple cokriging with the collocated datum added to the data: both block equations of the augmented
+system hold, for every size -/
+theorem collocated_weights (Sg : Matrix m m K) (C0p : Matrix m q K) (C00pp : Matrix q q K) (s0 : m → K) (c00p : q → K)
+    (hS : IsUnit Sg.det) (hD : IsUnit (C00pp - C0pᵀ * Sg⁻¹ * C0p).det) :
+    let D := C00pp - C0pᵀ * Sg⁻¹ * C0p
+    let lam0 := D⁻¹ *ᵥ (c00p - C0pᵀ *ᵥ (Sg⁻¹ *ᵥ s0))
+    let lam := Sg⁻¹ *ᵥ (s0 - C0p *ᵥ lam0)
+    Sg *ᵥ lam + C0p *ᵥ lam0 = s0 ∧ C0pᵀ *ᵥ lam + C00pp *ᵥ lam0 = c00p := by
+  intro D lam0 lam
+  have cancelS : ∀ v : m → K, Sg *ᵥ (Sg⁻¹ *ᵥ v) = v := fun v => by
+    rw [Matrix.mulVec_mulVec, Matrix.mul_nonsing_inv _ hS, Matrix.one_mulVec]
+  have hD' : D *ᵥ lam0 = c00p - C0pᵀ *ᵥ (Sg⁻¹ *ᵥ s0) := by
+    show D *ᵥ (D⁻¹ *ᵥ _) = _
+    rw [Matrix.mulVec_mulVec, Matrix.mul_nonsing_inv _ hD, Matrix.one_mulVec]
+  constructor
+  · show Sg *ᵥ (Sg⁻¹ *ᵥ (s0 - C0p *ᵥ lam0)) + C0p *ᵥ lam0 = s0
+    rw [cancelS]; abel
+  · show C0pᵀ *ᵥ (Sg⁻¹ *ᵥ (s0 - C0p *ᵥ lam0)) + C00pp *ᵥ lam0 = c00p
+    have e : C0pᵀ *ᵥ (Sg⁻¹ *ᵥ (C0p *ᵥ lam0)) = (C0pᵀ * Sg⁻¹ * C0p) *ᵥ lam0 := by
+      rw [Matrix.mulVec_mulVec, Matrix.mulVec_mulVec]
+    have hDm : D *ᵥ lam0 = C00pp *ᵥ lam0 - (C0pᵀ * Sg⁻¹ * C0p) *ᵥ lam0 := by
+      show (C00pp - C0pᵀ * Sg⁻¹ * C0p) *ᵥ lam0 = _
+      rw [Matrix.sub_mulVec]
+    rw [Matrix.mulVec_sub, Matrix.mulVec_sub, e]
+    have : C00pp *ᵥ lam0 = c00p - C0pᵀ *ᵥ (Sg⁻¹ *ᵥ s0) + (C0pᵀ * Sg⁻¹ * C0p) *ᵥ lam0 := by
+      rw [← hD', hDm]; abel
+    rw [this]; abel
+
+end Collocated
 end GstProofs.C04
